@@ -5,6 +5,8 @@ import (
 	"database/sql"
 	"fmt"
 	"time"
+
+	"github.com/pegnet/pegnetd/config"
 )
 
 // This file can be used for node administration related functions
@@ -154,14 +156,32 @@ func (p Pegnet) CheckHardForks(tx QueryAble) error {
 		return err
 	}
 
-	// Heights above the highest recorded row carry no version: they were
-	// synced by a build that predates version tracking (the database was
-	// taken back to such a build after tracking had started). They count as
-	// version -1 like everything else such a build synced.
-	if bs != nil && bs.Synced > top {
+	// A synced height without a recorded row was synced by a build that
+	// predates version tracking (the database was taken back to such a build
+	// after tracking had started, at the top or, if a start was forced in
+	// between, anywhere below it). Such heights count as version -1 like
+	// everything else a pre-tracking build synced.
+	if bs != nil {
 		for _, event := range Hardforks {
-			if bs.Synced >= event.ActivationHeight && -1 < event.MinimumVersion {
-				return fmt.Errorf("a hardfork occurred at height %d. Blocks up to height %d were synced by a pegnetd that predates sync-version tracking, but version %d was required. The only way to fix this error is to ensure your node is updated, delete your database, and resync", event.ActivationHeight, bs.Synced, event.MinimumVersion)
+			if event.MinimumVersion <= -1 || bs.Synced < event.ActivationHeight {
+				continue
+			}
+			// the first height a node ever syncs is the one after the pegnet activation
+			from := event.ActivationHeight
+			if from <= config.PegnetActivation {
+				from = config.PegnetActivation + 1
+			}
+			if bs.Synced < from {
+				continue
+			}
+			var recorded uint32
+			err := tx.QueryRow(`SELECT COUNT(*) FROM pn_sync_version WHERE height >= ? AND height <= ?;`,
+				from, bs.Synced).Scan(&recorded)
+			if err != nil {
+				return err
+			}
+			if recorded < bs.Synced-from+1 {
+				return fmt.Errorf("a hardfork occurred at height %d. Some blocks at or above it (synced height %d) were synced by a pegnetd that predates sync-version tracking, but version %d was required. The only way to fix this error is to ensure your node is updated, delete your database, and resync", event.ActivationHeight, bs.Synced, event.MinimumVersion)
 			}
 		}
 	}
